@@ -1,5 +1,6 @@
 import Jp.Lemmas.Text
 import Jp.Lemmas.Utf8
+import Jp.Lemmas.C16Helpers
 /-
   C16 — Array-index tokens follow the RFC 6901 grammar and bound checks are exact.
   Model: `Index.fromStr` (order of tests of `src/index.rs`), `forLen*`, `display`, `invalidCharAt`.
@@ -11,177 +12,6 @@ open Jp Jp.Spec
 -- fromStr_eq_spec fromStr_ok_iff fromStr_no_panic display_fromStr fromStr_display parseNat_decimal
 -- leading_zeros_truthful invalid_character_truthful invalid_integer_truthful
 -- forLen_exact forLenIncl_exact forLenUnchecked_exact toIndex_eq isNext_iff char_index_is_byte_index
-
-/-! ### helper lemmas -/
-
-theorem position_none_iff (p : Nat → Bool) (s : Bytes) :
-    position p s = none ↔ ∀ b ∈ s, p b = false := by
-  induction s with
-  | nil => simp [position]
-  | cons b r ih =>
-    simp only [position]
-    by_cases hb : p b = true
-    · simp [hb]
-    · simp [hb, ih]
-
-theorem position_some (p : Nat → Bool) (s : Bytes) (o : Nat) (h : position p s = some o) :
-    (∃ b, s[o]? = some b ∧ p b = true) ∧ (∀ j, j < o → ∃ b, s[j]? = some b ∧ p b = false) := by
-  induction s generalizing o with
-  | nil => simp [position] at h
-  | cons b r ih =>
-    simp only [position] at h
-    by_cases hb : p b = true
-    · simp [hb] at h; subst h; simp [hb]
-    · simp [hb] at h
-      obtain ⟨o', ho', rfl⟩ := h
-      obtain ⟨h1, h2⟩ := ih o' ho'
-      refine ⟨by simpa using h1, ?_⟩
-      intro j hj
-      cases j with
-      | zero => simp; simpa using hb
-      | succ j => simpa using h2 j (by omega)
-
-theorem head_len (s : Bytes) : (s.head? = some 48 ∧ s ≠ [48]) ↔ (s.length > 1 ∧ s.head? = some 48) := by
-  cases s with
-  | nil => simp
-  | cons a r =>
-    cases r with
-    | nil => simp
-    | cons c r' => simp
-
-theorem head?_append_of_ne_nil (l m : Bytes) (h : l ≠ []) : (l ++ m).head? = l.head? := by
-  cases l with
-  | nil => contradiction
-  | cons a r => simp
-
-theorem parseNat_snoc (s : Bytes) (d : Nat) : parseNat (s ++ [d]) = parseNat s * 10 + (d - 48) := by
-  simp [parseNat, List.foldl_append]
-
-theorem decimal_ne_nil (n : Nat) : decimal n ≠ [] := by
-  rw [decimal]; split <;> simp
-
-theorem decimal_all_digit (n : Nat) : ∀ b ∈ decimal n, isDigit b = true := by
-  induction n using Nat.strongRecOn with
-  | ind n ih =>
-    rw [decimal]
-    split
-    · intro b hb; simp at hb; subst hb; simp [isDigit]; omega
-    · intro b hb
-      simp only [List.mem_append, List.mem_singleton] at hb
-      rcases hb with hb | rfl
-      · exact ih (n / 10) (by omega) b hb
-      · simp [isDigit]; omega
-
-theorem decimal_head (n : Nat) (hn : 1 ≤ n) : (decimal n).head? ≠ some 48 := by
-  induction n using Nat.strongRecOn with
-  | ind n ih =>
-    rw [decimal]
-    split
-    · simp; omega
-    · rw [head?_append_of_ne_nil _ _ (decimal_ne_nil _)]
-      exact ih (n / 10) (by omega) (by omega)
-
-theorem decimal_zero : decimal 0 = [48] := by rw [decimal]; simp
-
-theorem decimal_parseNat_aux (k : Nat) : ∀ s : Bytes, s.length = k → s ≠ [] →
-    (∀ b ∈ s, isDigit b = true) → s.head? ≠ some 48 → decimal (parseNat s) = s := by
-  induction k with
-  | zero => intro s hl hne; cases s <;> simp_all
-  | succ k ih =>
-    intro s hl hne hd hz
-    rcases List.eq_nil_or_concat s with rfl | ⟨s', d, rfl⟩
-    · contradiction
-    · rw [List.concat_eq_append] at *
-      have hdd : isDigit d = true := hd d (by simp)
-      simp only [isDigit, Bool.and_eq_true, decide_eq_true_eq] at hdd
-      by_cases hs' : s' = []
-      · subst hs'
-        simp only [List.nil_append]
-        rw [decimal]
-        have e1 : d - 48 < 10 := by omega
-        have e2 : 48 + (d - 48) = d := by omega
-        simp [parseNat, e1, e2]
-      · have hl' : s'.length = k := by simp at hl; omega
-        have hz' : s'.head? ≠ some 48 := by
-          rw [head?_append_of_ne_nil _ _ hs'] at hz; exact hz
-        have ih' := ih s' hl' hs' (fun b hb => hd b (by simp [hb])) hz'
-        have hpos : 1 ≤ parseNat s' := by
-          rcases Nat.eq_zero_or_pos (parseNat s') with h0 | h0
-          · rw [h0, decimal_zero] at ih'
-            rw [← ih'] at hz'; simp at hz'
-          · exact h0
-        rw [parseNat_snoc, decimal]
-        have e1 : (parseNat s' * 10 + (d - 48)) / 10 = parseNat s' := by omega
-        have e2 : 48 + (parseNat s' * 10 + (d - 48)) % 10 = d := by omega
-        have e3 : ¬ (parseNat s' * 10 + (d - 48) < 10) := by omega
-        simp only [e3, dite_false, e1, e2, ih']
-
-theorem decimal_parseNat (s : Bytes) (hne : s ≠ []) (hd : ∀ b ∈ s, isDigit b = true)
-    (hz : s.head? ≠ some 48) : decimal (parseNat s) = s :=
-  decimal_parseNat_aux s.length s rfl hne hd hz
-
-theorem all_digit_of_position (s : Bytes) (h : position (fun b => !isDigit b) s = none) :
-    ∀ b ∈ s, isDigit b = true := by
-  intro b hb
-  have := (position_none_iff _ s).mp h b hb
-  simpa using this
-
-theorem position_of_all_digit (s : Bytes) (h : ∀ b ∈ s, isDigit b = true) :
-    position (fun b => !isDigit b) s = none := by
-  apply (position_none_iff _ s).mpr
-  intro b hb; simp [h b hb]
-
-/-- the shape of a successful numeric parse -/
-theorem spec_ok_num (s : Bytes) (n : Nat) (h : indexSpec s = .ok (.num n)) :
-    s ≠ [] ∧ (∀ b ∈ s, isDigit b = true) ∧ (s = [48] ∨ s.head? ≠ some 48) ∧
-      parseNat s ≤ usizeMax ∧ n = parseNat s := by
-  unfold indexSpec at h
-  split at h
-  · simp at h
-  · split at h
-    · simp at h
-    · rename_i h1 h2
-      split at h
-      · simp at h
-      · rename_i hp
-        split at h
-        · simp at h
-        · split at h
-          · simp at h
-          · rename_i h3 h4
-            simp at h
-            refine ⟨h3, all_digit_of_position s hp, ?_, by omega, h.symm⟩
-            cases s with
-            | nil => contradiction
-            | cons a r =>
-              cases r with
-              | nil => by_cases ha : a = 48 <;> simp [ha]
-              | cons c r' => simp at h2 ⊢; exact h2
-
-theorem spec_ok_next (s : Bytes) (h : indexSpec s = .ok .next) : s = [45] := by
-  unfold indexSpec at h
-  split at h
-  · assumption
-  · split at h
-    · simp at h
-    · split at h
-      · simp at h
-      · split at h
-        · simp at h
-        · split at h <;> simp at h
-
-theorem spec_of_valid (s : Bytes) (hne : s ≠ []) (hd : ∀ b ∈ s, isDigit b = true)
-    (hz : s = [48] ∨ s.head? ≠ some 48) (hm : parseNat s ≤ usizeMax) :
-    indexSpec s = .ok (.num (parseNat s)) := by
-  unfold indexSpec
-  have h1 : s ≠ [45] := by
-    intro e; subst e; have := hd 45 (by simp); simp [isDigit] at this
-  have h2 : ¬ (s.length > 1 ∧ s.head? = some 48) := by
-    rcases hz with rfl | hz
-    · simp
-    · simp [hz]
-  have h4 : ¬ parseNat s > usizeMax := by omega
-  simp [h1, h2, position_of_all_digit s hd, hne, h4]
 
 /-! ### obligations -/
 
